@@ -437,6 +437,8 @@ def run_scenario(exe, sc, timeout=70, env=None):
     e = dict(os.environ)
     if env:
         e.update(env)
+    if sc.startswith("e "):
+        timeout = 330       # scenario e settles by progress (nobody is lost while sleepers are still returning)
     try:
         p = subprocess.run([exe, "rt"] + sc.split(), stdout=subprocess.PIPE, stderr=subprocess.STDOUT, timeout=timeout, env=e)
         return p.returncode, p.stdout.decode("utf-8", "replace")
